@@ -44,11 +44,22 @@ type stack struct {
 	setQuery, setPutRes func()
 }
 
-func failErr(code int) error {
+// failErr builds the backend's error for a failing object. Backends commonly
+// wrap their status-carrying error with context (fmt.Errorf("...: %w")); the
+// status is still the backend's own, so a third of the errors are wrapped once
+// and a third twice (chosen by the path, deterministically).
+func failErr(code int, path string) error {
 	if code == 1 {
 		return errors.New("backend failure without a status")
 	}
-	return webdav.NewHTTPError(code, fmt.Errorf("backend says %d", code))
+	err := webdav.NewHTTPError(code, fmt.Errorf("backend says %d", code))
+	switch len(path) % 3 {
+	case 1:
+		return fmt.Errorf("store: lookup failed: %w", err)
+	case 2:
+		return fmt.Errorf("backend: %w", fmt.Errorf("store: %w", err))
+	}
+	return err
 }
 
 func decodeCal(b []byte) (*nObj, error) {
@@ -218,7 +229,7 @@ func buildServerStack(w *world) (*stack, error) {
 	errs := map[string]error{}
 	for _, o := range w.Objs {
 		if o.Fail != 0 {
-			errs[o.Path] = failErr(o.Fail)
+			errs[o.Path] = failErr(o.Fail, o.Path)
 		}
 	}
 	if w.Proto == "caldav" {
